@@ -1,6 +1,7 @@
 package checks
 
 import (
+	"bytes"
 	"context"
 	"errors"
 	"fmt"
@@ -270,7 +271,135 @@ func runC15WriteFaultTCP(c *mon.Case) {
 	}
 }
 
+// runC15Reuse: a NoiseGrpcConn is a credentials object that returns itself from
+// ClientHandshake / ServerHandshake, so one object serves all connections of a
+// session in turn. Connection 1 is abandoned after a read that left part of a
+// record behind (the reader's buffer was smaller than the record, or the record
+// larger than the 32 KiB read cap); then the same two objects handshake again
+// over a fresh transport and connection 2 must deliver exactly what is written
+// on connection 2.
+func runC15Reuse(c *mon.Case) {
+	rng := rand.New(rand.NewSource(c.Seed))
+	pass := eng.Entropy(rng)
+	cp := eng.NewMboxParty(eng.NewKey(rng), nil, pass, nil, 0, 2)
+	sp := eng.NewMboxParty(eng.NewKey(rng), nil, pass, []byte("auth"), 0, 2)
+	connect := func() (net.Conn, net.Conn, error) {
+		da, db, _, _ := sim.NewDuplexPair()
+		var wg sync.WaitGroup
+		var ce, se error
+		var cc, sc net.Conn
+		wg.Add(2)
+		go func() {
+			defer wg.Done()
+			cc, _, ce = cp.Noise.ClientHandshake(context.Background(), "", &fakeProxy{da})
+		}()
+		go func() { defer wg.Done(); sc, _, se = sp.Noise.ServerHandshake(&fakeProxy{db}) }()
+		wg.Wait()
+		if ce != nil || se != nil {
+			return nil, nil, fmt.Errorf("handshake: %v / %v", ce, se)
+		}
+		return cc, sc, nil
+	}
+	readerIsClient := rng.Intn(2) == 0
+	rounds := 2 + rng.Intn(3)
+	rep := map[string]any{"variant": "G-reuse", "reader_is_client": readerIsClient, "connections": rounds}
+	var script []string
+	for round := 0; round < rounds; round++ {
+		cc, sc, err := connect()
+		if err != nil {
+			c.Shard.Violate("contract|G|reuse", fmt.Sprintf("connection #%d over the same credentials objects: %v (script %v)", round+1, err, script), rep)
+			return
+		}
+		w, r := sc, cc
+		if !readerIsClient {
+			w, r = cc, sc
+		}
+		dir := byte('p' + round)
+		nw := 1 + rng.Intn(4)
+		sizes := make([]int, nw)
+		total := 0
+		for i := range sizes {
+			sizes[i] = []int{1 + rng.Intn(200), 20000 + rng.Intn(45536), 32769 + rng.Intn(1000), 65535}[rng.Intn(4)]
+			total += sizes[i]
+		}
+		// the last round is read completely; earlier ones are abandoned
+		// after a number of bytes that usually ends inside a record
+		stopAfter := total
+		last := round == rounds-1
+		if !last {
+			stopAfter = 1 + rng.Intn(total)
+		}
+		werr := make(chan error, 1)
+		go func() { _, err := eng.StreamWriter(w, dir, sizes); werr <- err }()
+		got := 0
+		bufs := []int{1, 7, 100, 4096, 32768, 40000, 70000}
+		for got < stopAfter {
+			bl := bufs[rng.Intn(len(bufs))]
+			if !last && bl > stopAfter-got && rng.Intn(2) == 0 {
+				bl = stopAfter - got
+			}
+			buf := make([]byte, bl)
+			n, err := r.Read(buf)
+			if n > 0 {
+				exp := eng.StreamBytes(dir, got, n)
+				if string(buf[:n]) != string(exp) {
+					d := firstDiff(buf[:n], exp)
+					what := "does not match what the peer wrote on this connection"
+					for pr := 0; pr < round; pr++ {
+						// recognise bytes of an earlier connection
+						if bytes.Contains(streamOfRound(byte('p'+pr)), buf[d:minInt(n, d+16)]) && n-d >= 8 {
+							what = fmt.Sprintf("is plaintext of connection #%d of the same object, which was abandoned with part of a record unread", pr+1)
+						}
+					}
+					c.Shard.Violate("contract|G|reuse", fmt.Sprintf("connection #%d: byte %d of the stream %s (script %v)", round+1, got+d, what, script), rep)
+					return
+				}
+				got += n
+			}
+			if err != nil {
+				c.Shard.Violate("contract|G|reuse", fmt.Sprintf("connection #%d: Read failed after %d of %d bytes: %v (script %v)", round+1, got, total, err, script), rep)
+				return
+			}
+		}
+		script = append(script, fmt.Sprintf("conn%d: writes %v, reader stopped after %d of %d bytes", round+1, sizes, got, total))
+		_ = cc.Close()
+		_ = sc.Close()
+		<-werr
+	}
+	rep["script"] = script
+	c.Shard.Count("reused_credentials_sessions", 1)
+	c.Shard.Count("reused_credentials_connections", int64(rounds))
+	c.Shard.Eval(fmt.Sprintf("GR|%v|%d|%x", readerIsClient, rounds, c.Seed&0xffff))
+	if c.Idx%48 == 11 {
+		c.Shard.Sample(rep)
+	}
+}
+
+var roundStreams sync.Map
+
+// streamOfRound returns the first 300 000 bytes of the deterministic stream of a
+// connection of runC15Reuse.
+func streamOfRound(dir byte) []byte {
+	if v, ok := roundStreams.Load(dir); ok {
+		return v.([]byte)
+	}
+	b := eng.StreamBytes(dir, 0, 300000)
+	roundStreams.Store(dir, b)
+	return b
+}
+
+func minInt(a, b int) int {
+	if a < b {
+		return a
+	}
+	return b
+}
+
 func runC15(c *mon.Case) {
+	if c.Idx%12 == 2 {
+		runC15Reuse(c)
+		return
+	}
 	if c.Idx%12 == 7 {
 		runC15WriteFaultTCP(c)
 		return
